@@ -113,6 +113,12 @@ func c15Run(raw []byte) (*Line, error) {
 	if c.Deg > 8 || c.Deg < -2 {
 		return nil, fmt.Errorf("degree out of the generated range")
 	}
+	if c.Op != 2 && len(xs) == 0 {
+		return nil, fmt.Errorf("no abscissa") // gonum refuses a matrix without rows; outside the property (n >= 3)
+	}
+	if c.Op == 2 && (len(xs) != len(ys) || math.IsNaN(float64(c.Span)) || math.IsInf(float64(c.Span), 0)) {
+		return nil, fmt.Errorf("LOESS: len(xs) != len(ys) or non-finite span") // LOESS does not check the lengths itself
+	}
 	xs0, ys0, ws0 := cloneF(xs), cloneF(ys), cloneF(ws)
 	unmodified := func() bool { return sameBits(xs, xs0) && sameBits(ys, ys0) && sameBits(ws, ws0) }
 	l := &Line{}
@@ -169,6 +175,9 @@ func c15Run(raw []byte) (*Line, error) {
 			l.I(0).I(0).I(0).I(0).B(unmodified())
 			break
 		}
+		if len(c.Qs) == 0 {
+			return nil, fmt.Errorf("no query of F")
+		}
 		l.Fs(res.Coefficients)
 		l.I(len(c.Qs))
 		for _, q := range c.Qs {
@@ -199,6 +208,9 @@ func c15Run(raw []byte) (*Line, error) {
 		if pan {
 			l.I(0).B(unmodified())
 			break
+		}
+		if len(c.Qs) == 0 {
+			return nil, fmt.Errorf("no query of the LOESS closure")
 		}
 		pure := unmodified()
 		l.I(len(c.Qs))
